@@ -69,6 +69,8 @@ type Job struct {
 	NoLeakCheck  bool
 	MaxSteps     int64
 	Solver       string // primary solver for this job: "" / "z3" / "cvc5"
+	Expect       []string // substrings of reach markers that some path must hit (else the job is vacuous)
+	ExpectNot    []string // substrings of reach markers no path may hit (the job does not exercise what it says)
 }
 
 // PathSummary is kept for evidence samples.
